@@ -1071,6 +1071,9 @@ func (r *runner) do(op M) {
 		if s.proto != "tcp" {
 			r.logLocal(h, sid, s)
 		}
+		if wo.To != nil {
+			r.seg.log(M{"ev": "wend", "host": h.id, "s": sid}) // the write with an explicit destination is over
+		}
 		r.note(op, "err", errStr(lastErr), "wn", written)
 	case "read":
 		// drain up to n bytes (tcp) or one datagram
